@@ -44,6 +44,7 @@ ASSUMPTIONS = [
     "a full upload over an existing remote is not required to remove files of older revisions (it has no deletion phase): after it only missing or wrong paths count, left-overs are recorded",
     "after an interrupted upload: a re-run that raises is allowed (recorded); a re-run that succeeds must leave exactly the model; if the incremental re-run raises, a full upload must succeed and must leave every path of the revision correct",
     "temporary rename names (.tmp.<time>.<pid>.<rand>) are normalised in the event log",
+    "reported class 'rerun-repeats-renames': an incremental re-run after an interruption that had already applied the renames of the span succeeds but leaves swapped / overwritten files; it keeps its own closed signature",
 ]
 
 MARKER = ".bzr-upload.revid"
@@ -288,6 +289,7 @@ def category(mh, revs, patterns):
     return "-"
 
 
+RERUN_CLASS = "rerun-repeats-renames"
 GUARD_CLASSES = ("symlink", "ignored-path-moved", "multi-revision-span", "dir-move-with-inner-change")
 
 
@@ -297,6 +299,11 @@ def vsig(oracle, mh, revs, patterns, rest):
     cat = category(mh, revs, patterns)
     if cat in GUARD_CLASSES:
         return [oracle, cat]
+    if oracle == "remote_differs" and rest and rest[0] == "rerun-incremental" and any(a[0] in ("rename", "swap") for r in revs for a in mh.revs[r]["actions"]):
+        # the interrupted upload had already applied its renames; the marker still names the
+        # old revision, so the re-run applies the same renames again (a swap is swapped back,
+        # a rename onto a re-used name overwrites the moved file) and then records success
+        return [oracle, RERUN_CLASS]
     return [oracle] + list(rest) + [cat]
 
 
